@@ -219,4 +219,24 @@ PROPS = {
     trusted_base=TB_COMMON + ["mmap'd memory behaves as memory (sparse file under /verif/tmp/mmap, removed after the run)"],
     assumptions=["each stream is polled by one task at a time (poll_next takes Pin<&mut Self>)"],
  ),
+ "C03": dict(
+    level_text="Lean 4 proof on the fan-out model, from any well-formed state with a fixed set of listeners and for ANY interleaving of any number of producers' fan-out loops with the listeners' polls: the listener bookkeeping is untouched, every completed send published its event exactly once to every listener and to nobody else, each listener's deliveries followed by its queue are exactly the publications to it in publication order (so it receives every event once, in order, and one producer's events in that producer's order), ogre_arc reference counts return to zero once every copy is released. All listeners receive the same allocation (checked by the oracle: Arc pointer / pool slot). The log channel's listeners are covered by the C09 theorems (same total order for everybody). Tied to the five queue-per-listener Multi channels by step-level replay at the granularity of the fan-out loop positions, and to the log channel by its own scenario.",
+    level_note="Theorem about model M6+M7 in which a per-listener queue operation is one step (rings: C02; crossbeam trusted); sequences shorter than the buffer, as the property says (the arc channels' wait-when-full loop is never entered).",
+    lean=["C03", "C09"],
+    scenarios=[dict(bin="multi", args=[f"kind={k}", "sub=fan", "drains=1"], runs=300, model_name="M6+M7 Multi", kinds=["invented", "duplicate", "order", "missed_event", "different_allocation", "stale_event", "storage_leaked", "panic", "no_progress"]) for k in MULTI_KINDS] +
+              [dict(bin="mmaplog", args=[], runs=300, model_name="M9 MmapLog")],
+    rule="1..MAX_STREAMS listeners (MAX in {1,2,4}) created up front, 1-2 producers sending 1-3 events each, one consumer per listener polling 1-4 times, then a drain; yield points at every fan-out loop position and poll; DISTINCT by trace hash; NON-TRIVIAL if more than one fan-out step occurred",
+    trusted_base=TB_COMMON + ["crossbeam-channel: linearizable bounded queue", "std::sync::Arc"],
+    assumptions=["the set of listeners does not change during the sends (C17 otherwise)"],
+ ),
+ "C17": dict(
+    level_text="PARTIAL proof: the C03 theorems (no create/drop micro-step between the first and last step of a send) and the C09 theorems for the log channel (a late subscriber gets a suffix, the others are unaffected); for arbitrary interleavings of listener creation / removal with the fan-out loop the property is FALSE of the code and of the model: three counterexample theorems (missed event, leaked pool slot, torn list) whose executions are exhibited on the real channels by the churn scenario and recorded as known findings. Tied to the code by step-level replay of the churn runs (the model reproduces the misbehaviour step by step).",
+    level_note="Known findings D7-miss, D7-stale, D7-leak (known_findings.json). What is proved is the fixed-listener case; the full statement does not hold.",
+    lean=["C17", "C03"],
+    scenarios=[dict(bin="multi", args=[f"kind={k}", "sub=churn", "drains=1"], runs=300, model_name="M6+M7 Multi", kinds=["missed_event", "stale_event", "storage_leaked", "invented", "duplicate", "order", "different_allocation", "panic", "no_progress"]) for k in MULTI_KINDS] +
+              [dict(bin="mmaplog", args=[], runs=300, model_name="M9 MmapLog")],
+    rule="2-3 listeners that exist throughout, one producer (1-3 events), one thread creating / dropping other listeners, MAX_STREAMS = 4; yield points at every bookkeeping access and fan-out position; DISTINCT by trace hash; NON-TRIVIAL if a bookkeeping step of the churn thread falls between two fan-out steps of one send",
+    trusted_base=TB_COMMON + ["crossbeam-channel", "std::sync::Arc"],
+    assumptions=[],
+ ),
 }
